@@ -159,7 +159,11 @@ def b1Step (P : B1Par) (s : B1Sys) : B1Event → B1Sys
         | some v => { s with cli := some { data := P.body, blkSize := r.blkSize },
                              reqs := s.reqs ++ [⟨v / 16, (v / 8) % 2, v % 8, P.body.take r.payload, some P.body.length⟩] }
         | none => s
-      else s                                  -- one message is enough: not a block-wise transfer
+      else
+        -- "No need to use blocks": the whole body in ONE message, no lg_xmit, no Size1 / Request-Tag; the Block1 option
+        -- (0, 0, blk_size) only if the application had put one in (`blk`), none otherwise (read as (0, 0, 0) by the server:
+        -- both take the "Not blocked, or a single block" exit of coap_handle_request_put_block)
+        { s with reqs := s.reqs ++ [⟨0, 0, (match r.blockVal with | some v => v % 8 | none => 0), P.body.take r.payload, none⟩] }
     | none => s                               -- refused
   | .reqArrives i =>
     match s.reqs[i]? with
